@@ -1,15 +1,86 @@
+# C14 - STUN messages round-trip; integrity and fingerprint accept only untampered data (DESIGN.md "### C14")
 STUN_MODELS = ['stun_pre.c', 'qt_core.c', 'qt_list.c', 'bytes_models.c', 'stun_models.c', 'ice_models.c']
-def S(name, entry, cfg=(0, 0, 0, 0), cap=100, **kw):
-    d = dict(name=name, entry=entry, unwind=24, timeout_s=300, mem_gb=6, model_loop_bound=cap + 4,
+UTIL_MODELS = ['stun_pre.c', 'qt_core.c', 'qt_list.c', 'bytes_models.c', 'hash_models.c']
+STUN_CAND = 'vp_buf_seek:i1(p,i64);vp_fake_localCandidate:void(p,p,i32)'
+Q, T, QT = ('quick',), ('thorough',), ('quick', 'thorough')
+DEC = '_ZN16QXmppStunMessage6decodeE'
+
+def S(name, entry, cfg=(0, 0, 0, 0), cap=100, dec=12, tiers=QT, bound='', **kw):
+    """one instance over the STUN harness; cfg = the four per-instance constants read by the harness through vp_cfg0..3;
+    dec = unwinding bound of decode()'s attribute loop (iterations + 1)"""
+    d = dict(name=name, entry=entry, unwind=24, timeout_s=300, mem_gb=4, model_loop_bound=cap + 4, tiers=tiers, bound=bound,
+             loop_bounds={DEC: dec},
              cdefs={'QB_CAP': cap, 'VP_CFG0': cfg[0], 'VP_CFG1': cfg[1], 'VP_CFG2': cfg[2], 'VP_CFG3': cfg[3]})
     d['cdefs'].update(kw.pop('cdefs', {})); d.update(kw); return d
+
+G = dict(ints=1, addr4=2, addr4x=3, addr6=4, addr6x=5, str=6, bytes=7, err=8, iced=9, empty=10, addr6b=11)
+RT_BOUND = 'all values symbolic (integers full range, IPv4/IPv6 addresses, 12-byte id, key bytes); layout fixed per instance: attribute group %s, key length %d, fingerprint %d, string/byte-string length %d'
+def RT(name, grp, key, fp, ln, tiers=QT):
+    return S(name, 'h_rt', (G[grp], key, fp, ln), cap=128, tiers=tiers, bound=RT_BOUND % (grp, key, fp, ln))
+
+def rt_instances():
+    out = [RT('rt_ints', 'ints', 2, 1, 1), RT('rt_ints_plain', 'ints', 0, 0, 0), RT('rt_empty', 'empty', 3, 1, 0), RT('rt_empty_fp', 'empty', 0, 1, 0),
+           RT('rt_addr4', 'addr4', 2, 1, 0), RT('rt_addr4x', 'addr4x', 0, 1, 0), RT('rt_addr6', 'addr6', 0, 0, 0), RT('rt_addr6x', 'addr6x', 1, 0, 0),
+           RT('rt_iced', 'iced', 0, 0, 0)]
+    kf = [(2, 1), (0, 0), (0, 1), (3, 0), (1, 1), (0, 0)]
+    for ln in range(6):       # every length 0..5: all residues mod 4
+        k, f = kf[ln]
+        out += [RT('rt_str_%d' % ln, 'str', k, f, ln), RT('rt_bytes_%d' % ln, 'bytes', kf[5 - ln][0], kf[5 - ln][1], ln), RT('rt_err_%d' % ln, 'err', k, 1 - f, ln)]
+    # thorough: remaining key/fingerprint combinations and the address attributes not in quick
+    for grp in ('ints', 'addr4', 'addr4x', 'addr6', 'addr6b', 'addr6x'):
+        for k in (0, 2):
+            for f in (0, 1):
+                out.append(RT('rtT_%s_k%d_f%d' % (grp, k, f), grp, k, f, 1, tiers=T))
+    for ln in (3, 8):
+        for grp in ('str', 'bytes', 'err'):
+            out.append(RT('rtT_%s_%d_kf' % (grp, ln), grp, 2, 1, ln, tiers=T))
+    return out
+
+V = dict(mi=1, mi_fp=2, prio_mi=3, user_mi=4, xaddr_mi=5, unk_mi=6, mi_prio=7, fp=8, mi_mi=9)
+VDEC = dict(mi=1, mi_fp=2, prio_mi=2, user_mi=2, xaddr_mi=2, unk_mi=2, mi_prio=2, fp=1, mi_mi=7)   # = maximal number of attributes walked
+MI_BOUND = 'buffer with fixed attribute layout [%s]: header, payload bytes and the length field of the last attribute symbolic; key of 1..%d symbolic bytes (0: empty key)'
+def MI(var, kmax, tiers=QT, name=None, **kw):
+    return S(name or ('acc_%s_k%d' % (var, kmax)), 'h_dec_mi', (V[var], kmax, 0, 0), cap=72, dec=VDEC[var], tiers=tiers, bound=MI_BOUND % (var, kmax), cdefs={'VP_UTF8_LATIN1': 1}, **kw)
+
+ANY_BOUND = 'arbitrary %d-byte datagram (only the header length field is fixed to the valid value %d), key of 1..%d symbolic bytes'
+def ANY(entry, name, n, kmax, tiers, dec, **kw):
+    o = dict(solver='cadical', safety_is_property=True, mem_gb=10, timeout_s=900); o.update(kw)
+    return S(name, entry, (n, kmax, 0, 0), cap=40, dec=dec, tiers=tiers, bound=ANY_BOUND % (n, n - 20, kmax), cdefs={'VP_UTF8_LATIN1': 1}, **o)
+
+stun_instances = rt_instances() + [
+    S('enc_addr_plain', 'h_enc_addr', (0, 0, 0, 0), bound='IPv4 address and port fully symbolic (port 0 = attribute absent)'),
+    S('enc_addr_xor', 'h_enc_addr', (1, 0, 0, 0), bound='IPv4 address and port fully symbolic (port 0 = attribute absent)'),
+    S('dec_addr_plain', 'h_dec_addr', (0, 0, 0, 0), dec=1, bound='32-byte datagram, fixed framing of one IPv4 address attribute, everything else symbolic'),
+    S('dec_addr_xor', 'h_dec_addr', (1, 0, 0, 0), dec=1, bound='32-byte datagram, fixed framing of one IPv4 address attribute, everything else symbolic'),
+    MI('mi', 2), MI('mi', 0), MI('mi_fp', 2), MI('prio_mi', 1), MI('user_mi', 1), MI('xaddr_mi', 1), MI('unk_mi', 1), MI('mi_prio', 1), MI('mi_mi', 1),
+    MI('fp', 0), MI('fp', 1), MI('mi_fp', 0, tiers=T), MI('prio_mi', 3, tiers=T), MI('mi', 8, tiers=T),
+    ANY('h_dec_any', 'safe_any20', 20, 1, QT, 1), ANY('h_dec_any', 'safe_any24', 24, 1, QT, 1), ANY('h_dec_any', 'safe_any28', 28, 1, T, 2, timeout_s=2400, mem_gb=14, object_bits=12),
+    S('dec_short', 'h_dec_short', cap=40, dec=1, bound='datagrams of every size 0..19, arbitrary bytes'),
+    S('dec_badlen', 'h_dec_badlen', (28, 0, 0, 0), cap=40, dec=1, bound='28-byte datagram: arbitrary header whose length field is not 8, followed by a well-formed PRIORITY attribute'),
+    S('peek20', 'h_peek', (20, 0, 0, 0), cap=40, bound='20 arbitrary bytes, valid length field'),
+    S('peek28', 'h_peek', (28, 0, 0, 0), cap=40, bound='28 arbitrary bytes, valid length field'),
+]
+
+def U(name, entry, cfg=(0, 0, 0, 0), cap=100, unwind=72, tiers=QT, bound='', **kw):
+    d = dict(name=name, entry=entry, unwind=unwind, timeout_s=300, mem_gb=6, model_loop_bound=cap + 4, tiers=tiers, bound=bound,
+             cdefs={'QB_CAP': cap, 'HB_CAP': 96, 'VP_CFG0': cfg[0], 'VP_CFG1': cfg[1], 'VP_CFG2': cfg[2], 'VP_CFG3': cfg[3]})
+    d.update(kw); return d
+HM_BOUND = 'key of %d..%d symbolic bytes, text of 0..%d symbolic bytes, %s; hash = uninterpreted consistent function'
+util_instances = [
+    U('crc_table', 'h_crc_table', unwind=10, bound='all 256 table entries (symbolic index)'),
+    U('crc_bytes4', 'h_crc_bytes', (4, 0, 0, 0), cap=40, unwind=10, tiers=Q, solver='cadical', bound='all byte strings of length 0..4'),
+    U('crc_bytes6', 'h_crc_bytes', (6, 0, 0, 0), cap=40, unwind=10, tiers=T, solver='cadical', timeout_s=900, bound='all byte strings of length 0..6'),
+    U('hmac_sha1_short', 'h_hmac', (0, 64, 0, 4), bound=HM_BOUND % (0, 64, 4, 'SHA-1')),
+    U('hmac_sha1_long', 'h_hmac', (65, 70, 0, 2), bound=HM_BOUND % (65, 70, 2, 'SHA-1')),
+    U('hmac_md5_short', 'h_hmac', (0, 64, 1, 2), bound=HM_BOUND % (0, 64, 2, 'MD5')),
+    U('hmac_md5_long', 'h_hmac', (65, 66, 1, 1), tiers=T, bound=HM_BOUND % (65, 66, 1, 'MD5')),
+]
+
 SPEC = dict(
     property='C14',
     groups=[
-        dict(name='stun', harness='h_stun.cpp', tus=[], models=STUN_MODELS, cand='vp_buf_seek:i1(p,i64);vp_fake_localCandidate:void(p,p,i32)',
-             loop_bounds={'_ZN16QXmppStunMessage6decodeE': 8},
-             instances=[S('rt_ints', 'h_rt', (1, 2, 1, 1)), S('prio_cand', 'h_prio_cand'), S('prio_pair', 'h_prio_pair'),
-                        S('dec_mi', 'h_dec_mi', (1, 2, 0, 0), loop_bounds={'_ZN16QXmppStunMessage6decodeE': 3})]),
+        dict(name='stun', harness='h_stun.cpp', tus=[], models=STUN_MODELS, cand=STUN_CAND, instances=stun_instances),
+        dict(name='utils', harness='h_utils.cpp', tus=[], models=UTIL_MODELS, instances=util_instances),
     ],
     bounds=[], assumptions=[], outside=[],
 )
